@@ -213,8 +213,9 @@ def s_gather(ctx):
         ctx.witness[f"index{i}"] = t
         idx_items.append(SInt(t))
     idx_known = ctx.choose(2, "indices constant") == 0
+    idx_ndim = [1, 0, 2][ctx.choose(3, "rank of the indices tensor")] if (idx_known and n_idx == 1) else 1
     idx = W.value("indices", dims=[n_idx], rt=[z3.IntVal(n_idx)], dtype=ir.DataType.INT64,
-                  const=(W.tensor(idx_items, ir.DataType.INT64) if idx_known else None), initializer=idx_known)
+                  const=(W.tensor(idx_items, ir.DataType.INT64, ndim=idx_ndim) if idx_known else None), initializer=idx_known)
     axis = [None, 0, 1][ctx.choose(3, "axis attribute")]
     node = W.node("Gather", [x, idx], attrs=({} if axis is None else {"axis": axis}))
     op = OpRecorder()
@@ -231,8 +232,9 @@ def s_gather(ctx):
     if sv is not None:
         ctx.cover("gather.recorded")
         dims = W.dims_of(sv)
-        ok = elems is not None and idx_known and axis == 0 and len(dims) == n_idx
-        ctx.check("C09.folding.gather.records_only_axis0_gather_of_known_shape_with_constant_indices", ok, CL09)
+        ok = elems is not None and idx_known and axis == 0 and len(dims) == n_idx and idx_ndim == 1
+        ctx.check("C09.folding.gather.records_only_axis0_gather_of_known_shape_with_constant_1d_indices", ok,
+                  CL09 + " — Gather with a 0-d index yields a 0-d result, with 2-d indices a 2-d one: only 1-d indices give a shape-like 1-d value")
         if ok:
             for j, d in enumerate(dims):
                 k = idx_items[j].t
@@ -243,7 +245,7 @@ def s_gather(ctx):
                 m = W.mean(d)
                 ctx.check("C09.folding.gather.recorded_element_is_the_indexed_element", z3.Implies(in_range, m == picked), CL09)
     if r is not None:
-        okc = isinstance(r, Call) and r.op == "Constant" and sv is not None
+        okc = isinstance(r, Call) and r.op == "Constant" and sv is not None and idx_ndim == 1
         ctx.check("C03.folding.gather.constant_only_when_all_gathered_entries_are_ints", okc and
                   all(isinstance(d, (int, SInt)) for d in W.dims_of(sv)), CL09)
 
